@@ -419,3 +419,55 @@ def translate_split(fn):
             "def splitDataStream (stream : Bytes) : Bytes × Bytes :=\n  let index := splitIdx stream stream.length 0\n"
             "  if stream.length - index ≥ %s ∧ fromBE ((stream.drop (index + %s)).take (%s - %s)) < %s then (stream, [])\n"
             "  else (stream.take index, stream.drop index)\n" % (A, B, C, B, D, E, B2, C2, B2, F))
+
+
+# --------------------------------------------------------------------------- utils.encode_to_tbcd / decode_from_tbcd
+
+def translate_tbcd(U):
+    """Shape-checking translation of the two TBCD loops (and the helpers they call) of bromelia/utils.py. The statement lists
+    must be the ones below up to the extracted constants: slice width W / step S / full-pair length L of the encoder, the filler
+    character F (both loops), step S' and the index K of the digit kept at the filler in the decoder, the keys of `special_chars`.
+    `transform_bits` (special characters, outside the property) becomes a parameter of the Lean encoder."""
+    import re
+
+    def stmts(fn):
+        t = ast.parse(textwrap.dedent(inspect.getsource(fn))).body[0]
+        return [ast.unparse(s) for s in t.body if not (isinstance(s, ast.Expr) and isinstance(s.value, ast.Constant))]
+    g = stmts(U.get_two_bits)
+    mg = re.fullmatch(r"return input\[offset:offset \+ (\d+)\]", g[0]) if len(g) == 1 else None
+    if not mg:
+        raise Untranslatable("get_two_bits")
+    if stmts(U.is_special_char) != ["return any((char in bits for char in special_chars.keys()))"]:
+        raise Untranslatable("is_special_char")
+    keys = list(U.special_chars)
+    if not all(isinstance(k, str) and len(k) == 1 for k in keys):
+        raise Untranslatable("special_chars keys")
+    e = stmts(U.encode_to_tbcd)
+    pat_e = (r"while offset < len\(input\):\n    bits = get_two_bits\(input, offset\)\n    if len\(bits\) == (\d+):\n        bits = bits\[::-1\]\n"
+             r"        bits = transform_bits\(bits\) if is_special_char\(bits\) else bits\n        output \+= bits\n        offset \+= (\d+)\n"
+             r"    else:\n        bits = '(.)' \+ str\(bits\)\n        output \+= bits\n        return output")
+    me = re.fullmatch(pat_e, e[2]) if len(e) == 4 else None
+    if not me or e[0] != "offset, output = (0, '')" or e[1] != "input = str(input) if isinstance(input, int) else input" or e[3] != "return output":
+        raise Untranslatable("encode_to_tbcd shape")
+    d = stmts(U.decode_from_tbcd)
+    pat_d = (r"while offset < len\(input\):\n    bits = get_two_bits\(input, offset\)\n    if '(.)' not in bits:\n        output \+= bits\[::-1\]\n"
+             r"        offset \+= (\d+)\n    else:\n        output \+= bits\[(\d+)\]\n        return output")
+    md = re.fullmatch(pat_d, d[1]) if len(d) == 3 else None
+    if not md or d[0] != "offset, output = (0, '')" or d[2] != "return output":
+        raise Untranslatable("decode_from_tbcd shape")
+    W, L, S, F = mg.group(1), me.group(1), me.group(2), me.group(3)
+    F2, S2, K = md.group(1), md.group(2), md.group(3)
+    ch = lambda c: "'%s'" % c if c not in "'\\" else "'\\%s'" % c
+    return ("/-- keys of `special_chars` -/\ndef specialChars : List Char := [%s]\n"
+            "def isSpecial (bits : List Char) : Bool := specialChars.any (fun c => bits.contains c)\n\n"
+            "def encLoop (transform : List Char → List Char) (input : List Char) : Nat → Nat → List Char → List Char\n"
+            "  | 0, _, out => out\n  | f+1, off, out =>\n    if off < input.length then\n      let bits := (input.drop off).take %s\n"
+            "      if bits.length = %s then\n        let bits := bits.reverse\n        let bits := if isSpecial bits then transform bits else bits\n"
+            "        encLoop transform input f (off + %s) (out ++ bits)\n      else out ++ (%s :: bits)\n    else out\n"
+            "def encode (transform : List Char → List Char) (input : List Char) : List Char := encLoop transform input (input.length + 1) 0 []\n\n"
+            "def decLoop (input : List Char) : Nat → Nat → List Char → Option (List Char)\n  | 0, _, out => some out\n  | f+1, off, out =>\n"
+            "    if off < input.length then\n      let bits := (input.drop off).take %s\n"
+            "      if !(bits.any (fun c => c == %s)) then decLoop input f (off + %s) (out ++ bits.reverse)\n"
+            "      else match bits[%s]? with\n        | some c => some (out ++ [c])\n        | none => none\n    else some out\n"
+            "def decode (input : List Char) : Option (List Char) := decLoop input (input.length + 1) 0 []\n"
+            % (", ".join(ch(k) for k in keys), W, L, S, ch(F), W, ch(F2), S2, K))
